@@ -68,7 +68,7 @@ def views_for(name):
 
 KEYS = {
     "cell_irreg": ["radius", "length", "axial_resistivity", "capacitance", "Leak_gLeak", "HH_gNa", "v", "HH_m"],
-    "net3_mixed": ["radius", "Leak_eLeak", "v", "IonotropicSynapse_gS", "TestSynapse_gC", "IonotropicSynapse_s"],
+    "net3_mixed": ["radius", "Leak_eLeak", "v", "IonotropicSynapse_gS", "IonotropicSynapse_k_minus", "TestSynapse_gC", "IonotropicSynapse_s"],   # k_minus: a synaptic parameter read by the state update
     "branch2_hh": ["HH_gK", "v", "capacitance"],
 }
 
